@@ -161,13 +161,13 @@ Example ex_loop_run :
   let post := [EChange 1; EDeliver; EChange 0; EDeliver; EScanStart; EDeliver; EChange 0; EScanEnd; EDeliver; EScanStart; EScanEnd] in
   (exists s, lrun l_init (pre ++ post) = Some s /\ quiescent s = true) /\
   existsb is_change pre = false /\ existsb is_watch_add pre = true /\ existsb is_drop post = false.
-Proof. split; [eexists; split; reflexivity|repeat split]. Qed.
+Proof. vm_compute. split; [eexists; split; reflexivity|repeat split]. Qed.
 Example ex_loop_tick :
   let a := [EChange 0; EInitScanEnd; EWatchAdd; EChange 0; EDrop] in
   let b := [EScanStart; EScanEnd] in
   (exists s, lrun l_init (a ++ ETick :: b) = Some s /\ quiescent s = true) /\ existsb is_change b = false /\
   scanned_after_last_change a = false.
-Proof. split; [eexists; split; reflexivity|repeat split]. Qed.
+Proof. vm_compute. split; [eexists; split; reflexivity|repeat split]. Qed.
 Example ex_loop_progress_nontrivial :
   exists s, lrun l_init [EInitScanEnd; EWatchAdd; EChange 2; EDeliver] = Some s /\ quiescent s = false.
-Proof. eexists; split; reflexivity. Qed.
+Proof. vm_compute. eexists; split; reflexivity. Qed.
